@@ -245,7 +245,7 @@ FlowSequenceEntryS(t, p00, first) ==
 
 FSEMappingKeyS(t, p0) ==
   LET p == PeekTok(t, p0) IN IF p.sc.err # "" THEN Bad(p) ELSE
-  IF p.tok.k \in {"Value", "FlowEntry", "FlowSequenceEnd"} THEN Ret(Skip([p EXCEPT !.state = "FlowSequenceEntryMappingValue"]), EmptyScalar(p.tok.a, p.tok.b))
+  IF p.tok.k \in {"Value", "FlowEntry", "FlowSequenceEnd"} THEN Ret([p EXCEPT !.state = "FlowSequenceEntryMappingValue"], EmptyScalar(p.tok.a, p.tok.b))     \* the token is left for the next states
   ELSE ParseNode(t, PushS(p, "FlowSequenceEntryMappingValue"), FALSE, FALSE)
 
 FSEMappingValueS(t, p0) ==
